@@ -21,7 +21,7 @@ m["origin"] = "independent sub-agent given only the property text and its own wo
 json.dump(m, open(f"/verif/seeded/{id_}/meta.json", "w"), indent=1)
 PY
   echo "$id: kept"
+  git -C /repo worktree remove --force /tmp/seed/$id 2>/dev/null
 else
-  echo "$id: NOT confirmed"
+  echo "$id: NOT confirmed (worktree /tmp/seed/$id left in place)"
 fi
-git -C /repo worktree remove --force /tmp/seed/$id 2>/dev/null
